@@ -90,6 +90,7 @@ type scnStep struct {
 	Suites   [][]int    `json:"suites"` // [auth, integ, conf]
 	Events   []scnEvent `json:"events"`
 	FSR      string     `json:"fsr"` // sensor: Full Sensor Record body (hex)
+	BMCSet   scnBMC     `json:"bmcset"`
 }
 
 type scenario struct {
@@ -591,6 +592,8 @@ type zeroBackOff struct{}
 func (zeroBackOff) NextBackOff() time.Duration { return 0 }
 func (zeroBackOff) Reset()                     {}
 
+var dialed []*bmc.V2SessionlessTransport
+
 type scnState struct {
 	b    *sim.BMC
 	t    *simTransport
@@ -702,6 +705,45 @@ func runStep(st *scnState, step *scnStep) (res stepResult) {
 				res.ErrText = err.Error()
 			}
 			st.sess = nil
+		case "bmcset":
+			// reconfigure the simulated BMC between steps
+			if step.BMCSet.DCMISensors != nil {
+				st.b.DCMISensors = map[uint8][]uint16{}
+				for k, v := range step.BMCSet.DCMISensors {
+					st.b.DCMISensors[uint8(atoi(k))] = v
+				}
+			}
+			if step.BMCSet.PageSize > 0 {
+				st.b.DCMIPageSize = step.BMCSet.PageSize
+			}
+			if step.BMCSet.Sensors != nil {
+				st.b.Sensors = map[uint8][]byte{}
+				for k, v := range step.BMCSet.Sensors {
+					st.b.Sensors[uint8(atoi(k))] = unhexOrEmpty(v)
+				}
+			}
+			if step.BMCSet.SDRs != nil {
+				st.b.ModifySDRs(toSDRs(step.BMCSet.SDRs), step.BMCSet.Addition, step.BMCSet.Erase)
+			}
+			res.Err = "nil"
+		case "dial":
+			// a real UDP socket through DialV2 (connection metrics); Cmd.Hex is the address
+			c, err := bmc.DialV2(step.Cmd.Hex, bmc.WithTimeout(50*time.Millisecond))
+			res.Err = classifyErr(err)
+			if err == nil {
+				dialed = append(dialed, c)
+			}
+		case "closedial":
+			if len(dialed) == 0 {
+				res.Err = "nosession"
+				return
+			}
+			c := dialed[len(dialed)-1]
+			dialed = dialed[:len(dialed)-1]
+			if len(step.Script) > 0 && step.Script[0] == "fail" {
+				c.Transport.Close() // the second close of the socket fails
+			}
+			res.Err = classifyErr(c.Close())
 		case "closeconn":
 			if len(step.Script) > 0 && step.Script[0] == "fail" {
 				t.closeErr = errors.New("simulated close failure")
